@@ -29,7 +29,7 @@ type respSpec struct {
 // per version: key -> response shape
 var versions = []map[string]respSpec{
 	{"n1/65": {ttls: []uint32{5}}, "n1/1": {ttls: []uint32{2, 5}}, "n1/28": {ttls: []uint32{1000}},
-		"n2/65": {}, "n2/1": {ttls: []uint32{5, 1}, cname: true}, "n2/28": {ttls: []uint32{2}, cname: true}},
+		"n2/65": {ttls: []uint32{2147483647}} /* the largest TTL RFC 2181 allows */, "n2/1": {ttls: []uint32{5, 1}, cname: true}, "n2/28": {ttls: []uint32{2}, cname: true}},
 	{"n1/65": {ttls: []uint32{0}}, "n1/1": {ttls: []uint32{5, 2}}, "n1/28": {ttls: []uint32{1000, 400}},
 		"n2/65": {}, "n2/1": {ttls: []uint32{0, 5}, cname: true}, "n2/28": {ttls: []uint32{5}, cname: true}},
 	{"n1/65": {ttls: []uint32{1}}, "n1/1": {ttls: []uint32{0, 5}}, "n1/28": {},
